@@ -10,6 +10,7 @@ Open Scope N_scope.
 
 Inductive titem :=
 | IWs (s : str)              (* spaces / tabs *)
+| IInd                       (* the run-time indent `{indent}` of the writer: any whitespace *)
 | INl                        (* \n *)
 | IBO | IBC                  (* { } *)
 | IQLit (s : str)            (* "literal" *)
@@ -30,24 +31,25 @@ Definition word_ok (w : str) : bool :=
               && forallb (fun c => negb (bare_disallowed c)) t
   end.
 
-Fixpoint render (E : escfg) (its : list titem) (vs : list str) : str :=
+Fixpoint render (E : escfg) (ind : str) (its : list titem) (vs : list str) : str :=
   match its with
   | [] => []
-  | IWs s :: r => s ++ render E r vs
-  | INl :: r => [LF] ++ render E r vs
-  | IBO :: r => [123] ++ render E r vs
-  | IBC :: r => [125] ++ render E r vs
-  | IQLit s :: r => (DQ :: s ++ [DQ]) ++ render E r vs
-  | IQRaw :: r => match vs with v :: vs' => (DQ :: v ++ [DQ]) ++ render E r vs' | [] => [] end
-  | IQEsc :: r => match vs with v :: vs' => (DQ :: escape E v ++ [DQ]) ++ render E r vs' | [] => [] end
-  | IWord w d :: r => (w ++ [d]) ++ render E r vs
-  | IBare d :: r => match vs with v :: vs' => (v ++ [d]) ++ render E r vs' | [] => [] end
+  | IWs s :: r => s ++ render E ind r vs
+  | IInd :: r => ind ++ render E ind r vs
+  | INl :: r => [LF] ++ render E ind r vs
+  | IBO :: r => [123] ++ render E ind r vs
+  | IBC :: r => [125] ++ render E ind r vs
+  | IQLit s :: r => (DQ :: s ++ [DQ]) ++ render E ind r vs
+  | IQRaw :: r => match vs with v :: vs' => (DQ :: v ++ [DQ]) ++ render E ind r vs' | [] => [] end
+  | IQEsc :: r => match vs with v :: vs' => (DQ :: escape E v ++ [DQ]) ++ render E ind r vs' | [] => [] end
+  | IWord w d :: r => (w ++ [d]) ++ render E ind r vs
+  | IBare d :: r => match vs with v :: vs' => (v ++ [d]) ++ render E ind r vs' | [] => [] end
   end.
 
 Fixpoint toks (its : list titem) (vs : list str) : list tok :=
   match its with
   | [] => []
-  | IWs _ :: r => toks r vs
+  | IWs _ :: r | IInd :: r => toks r vs
   | INl :: r => [TNL] ++ toks r vs
   | IBO :: r => [TBO] ++ toks r vs
   | IBC :: r => [TBC] ++ toks r vs
